@@ -191,6 +191,8 @@ class History:
     def rowid(self, row):
         if hasattr(row, "tolist"):
             row = row.tolist()
+        if isinstance(row, (list, tuple)) and row and all(isinstance(v, (int, float)) and not isinstance(v, bool) for v in row):
+            row = [float(v) for v in row]         # a row is its values: 3 and 3.0 are the same cell
         key = repr(row)
         if key not in self.rowids:
             self.rowids[key] = len(self.rowids) + 1
